@@ -188,7 +188,11 @@ func runC05(c *kit.Ctx) {
 					switch {
 					case kind <= 2:
 						in.Op = "regist"
-						s := media.NewStream(sp, kit.SDPH264Only)
+						sdpk := kit.SDPH264Only
+						if r%2 == 0 {
+							sdpk = kit.SDPH264AAC // HLS-capable (has a playlist whose access time the idle decision consults)
+						}
+						s := media.NewStream(sp, sdpk)
 						in.Sid = reg.add(s, key)
 						atomic.AddInt64(&nreg, 1)
 						if withConsumers && r%3 == 0 {
@@ -301,7 +305,8 @@ func runC05(c *kit.Ctx) {
 		ord := fi % 3
 		scen := []string{"regist-held-after-load|regist-complete", "unregist-old|regist-new-between-load-and-delete", "close-then-get"}[ord]
 		c.Pre("C05 forced " + scen)
-		s1 := media.NewStream(c05spell[key][0], kit.SDPH264Only)
+		sdp1 := []string{kit.SDPH264Only, kit.SDPH264AAC, kit.SDPH265AAC}[(fi/3)%3]
+		s1 := media.NewStream(c05spell[key][0], sdp1)
 		s2 := media.NewStream(c05spell[key][1], kit.SDPH264Only)
 		posted := map[*media.Stream]bool{}
 		var pmu sync.Mutex
@@ -336,7 +341,10 @@ func runC05(c *kit.Ctx) {
 			}
 		case 1:
 			media.Regist(s1)
-			media.Regist(s2) // s1 retired (closed: no consumers)
+			media.Regist(s2) // s1 retired: it has no consumers, so it must be closed at once
+			if media.VerifStatus(s1) == media.StreamOK {
+				c.Violation("C05:replaced-stream-without-consumers-not-closed-at-once", detail)
+			}
 			media.Unregist(s1)
 			if media.Get(key) != s2 {
 				c.Violation("C05:unregistering-retired-stream-removed-successor", detail)
@@ -373,15 +381,19 @@ func runC05(c *kit.Ctx) {
 			sp := c05spell[key][rng.Intn(len(c05spell[key]))]
 			switch rng.Intn(7) {
 			case 0, 1:
-				s := media.NewStream(sp, kit.SDPH264Only)
+				s := media.NewStream(sp, []string{kit.SDPH264Only, kit.SDPH264AAC, kit.SDPH265AAC}[rng.Intn(3)])
 				all = append(all, s)
 				if rng.Intn(3) == 0 {
 					s.StartConsume(&kit.RecConsumer{}, media.RTPPacket, "seq")
 					consCount[s]++
 				}
+				old := model[key]
 				media.Regist(s)
 				model[key] = s
 				hist = append(hist, fmt.Sprintf("regist(%q)", sp))
+				if old != nil && old != s && consCount[old] == 0 && media.VerifStatus(old) == media.StreamOK {
+					c.Violation("C05:replaced-stream-without-consumers-not-closed-at-once", map[string]interface{}{"case": si, "history": hist})
+				}
 			case 2:
 				if len(all) > 0 {
 					s := all[rng.Intn(len(all))]
